@@ -122,11 +122,11 @@ func init() {
 	})
 	registerCheck(&checkSpec{
 		id:    "C12",
-		dirs:  []string{"socket", ".", "xfer/md5", "xfer/gzip"},
+		dirs:  []string{"socket", ".", "xfer/md5", "xfer/gzip", "mixer/websocket/pbSubProto", "mixer/websocket/jsonSubProto"},
 		level: "other",
 		jobs: func(tier string) []job {
 			js := []job{J("socket", "VX_C12_PipeInverts", 0, 2), J("socket", "VX_C12_PipeInverts", 1, 2), J("socket", "VX_C12_PipeInverts", 2, 2),
-				J("socket", "VX_C12_RecycledPipe", 1, 1, 2), J("socket", "VX_C12_RecycledPipe", 6, 2, 1), J("socket", "VX_C12_RecycledPipe", 0, 1, 1), J("socket", "VX_C12_PipeOnWire", 1, 1), J("socket", "VX_C12_PipeOnWire", 2, 1), J("socket", "VX_C12_Unregistered"), J("socket", "VX_C12_TooLong"),
+				J("mixer/websocket/pbSubProto", "VX_C12_WSPbUnregistered"), J("mixer/websocket/jsonSubProto", "VX_C12_WSJsonUnregistered", 63), J("mixer/websocket/jsonSubProto", "VX_C12_WSJsonUnregistered", 0), J("socket", "VX_C12_RecycledPipe", 1, 1, 2), J("socket", "VX_C12_RecycledPipe", 6, 2, 1), J("socket", "VX_C12_RecycledPipe", 0, 1, 1), J("socket", "VX_C12_PipeOnWire", 1, 1), J("socket", "VX_C12_PipeOnWire", 2, 1), J("socket", "VX_C12_Unregistered"), J("socket", "VX_C12_TooLong"),
 				J("socket", "VX_C12_UnregisteredInPipe", 2, 0), J("socket", "VX_C12_UnregisteredInPipe", 2, 1), J("socket", "VX_C12_UnregisteredInPipe", 3, 0), J("socket", "VX_C12_UnregisteredInPipe", 3, 1), J("socket", "VX_C12_UnregisteredInPipe", 3, 2),
 				J("socket", "VX_C12_PipeLengthOnWire", 255, 1), J("socket", "VX_C12_PipeLengthOnWire", 254, 1), J("socket", "VX_C12_PipeLengthOnWire", 128, 2), J("socket", "VX_C12_PipeLengthOnWire", 127, 1),
 				J("xfer/gzip", "VX_C12_GzipPipe", 0, 300), J("xfer/gzip", "VX_C12_GzipPipe", 1, 300), J("xfer/gzip", "VX_C12_GzipPipe", 2, 64), J("xfer/gzip", "VX_C12_GzipPipe", 3, 300),
